@@ -274,7 +274,11 @@ func (x *Unit) ghostGet(st *State, name string) Val {
 	if g != nil {
 		t = g.typ
 	}
-	v := Val{x.fresh("G0_"+name, x.u.SortOf(t)), t}
+	srt := x.u.SortOf(t)
+	if _, isMap := under(t).(*types.Map); isMap {
+		srt = x.u.MapDT(t) // ghost maps are values
+	}
+	v := Val{x.fresh("G0_"+name, srt), t}
 	x.entry.ghost[name] = v
 	x.inputs = append(x.inputs, v.S)
 	st.ghost[name] = v
@@ -378,6 +382,10 @@ func (x *Unit) spIndex(st *State, b, i Val, e ast.Node) Val {
 			et = s.Elem()
 		}
 		return Val{Select(x.u.SliceArr(b.T), i.T), et}
+	}
+	if mt, ok := under(b.Typ).(*types.Map); ok && b.Sort == SInt {
+		k := x.convert(st, i, mt.Key())
+		return Val{Select(x.u.MapVal(x.mapContent(st, b)), k.T), mt.Elem()}
 	}
 	if kv, ok := x.u.mapKV[b.Sort]; ok {
 		var et, kt types.Type
@@ -516,6 +524,10 @@ func (x *Unit) spCall(st *State, e *ast.CallExpr, c *specCtx) Val {
 			return Val{x.u.SliceLen(a.T), intT}
 		case x.u.mapKV[a.Sort][0] != "":
 			return Val{x.u.MapLen(a.T), intT}
+		case a.Sort == SInt && a.Typ != nil:
+			if _, ok := under(a.Typ).(*types.Map); ok {
+				return Val{x.mapLenT(st, a), intT}
+			}
 		}
 		if at, ok := under(a.Typ).(*types.Array); ok {
 			return Val{IntLit(at.Len()), intT}
@@ -622,7 +634,7 @@ func (x *Unit) spCall(st *State, e *ast.CallExpr, c *specCtx) Val {
 		if mt, ok := under(m.Typ).(*types.Map); ok {
 			k = x.convert(st, k, mt.Key())
 		}
-		return Val{And(Not(x.u.MapNil(m.T)), Select(x.u.MapDom(m.T), k.T)), boolT}
+		return Val{x.mapHas(st, m, k.T), boolT}
 	case "isnil":
 		a := arg(0)
 		return Val{Eq(a.T, x.zero(a.Typ).T), boolT}
@@ -886,6 +898,13 @@ func (x *Unit) specLV(st *State, e ast.Expr, c *specCtx) *LV {
 			n := e.Args[0].(*ast.Ident).Name
 			return &LV{kind: lvGlobal, key: "ev_" + n, typ: intT}
 		}
+		if id, ok := e.Fun.(*ast.Ident); ok && id.Name == "elems" {
+			// elems(m): the whole contents of map m
+			m := x.sp(st, e.Args[0], c)
+			if _, isMap := under(m.Typ).(*types.Map); isMap && !x.isGhostMap(m) {
+				return x.mapLV(m)
+			}
+		}
 	case *ast.SelectorExpr:
 		base := x.sp(st, e.X, c)
 		if base.Typ == nil {
@@ -918,6 +937,9 @@ func (x *Unit) specLV(st *State, e ast.Expr, c *specCtx) *LV {
 		switch tt := under(p.typ).(type) {
 		case *types.Map:
 			k := x.convert(st, i, tt.Key())
+			if pv := x.readLV(st, p); !x.isGhostMap(pv) {
+				return &LV{kind: lvMap, parent: x.mapLV(pv), idx: k.T, typ: tt.Elem()}
+			}
 			return &LV{kind: lvMap, parent: p, idx: k.T, typ: tt.Elem()}
 		case *types.Slice:
 			return &LV{kind: lvIndex, parent: p, idx: i.T, typ: tt.Elem()}
